@@ -892,7 +892,10 @@ fn run_op(tx: &mut Transaction, op: &Value) -> Value {
             }
             let (sa, sb) = (a.state(), b.state());
             let same = ra == rb && sa.stack == sb.stack && sa.alt_stack == sb.alt_stack;
-            json!({ "ok": { "same": same } })
+            // iterating to exhaustion without looking at the items must end
+            let c = Interpreter::from_script(&script);
+            let stepping_ends = c.take(10000).count() < 10000;
+            json!({ "ok": { "same": same, "stepping_ends": stepping_ends } })
         }
         "hash" => {
             let data = hx(&op["input"]);
